@@ -1,6 +1,6 @@
 """C18 - named physical definitions evaluate their textbook formulas."""
 import os
-from lib import vf
+from lib import vf, rel
 
 
 def run(ctx):
@@ -16,6 +16,14 @@ def run(ctx):
         if not r[0]:
             raise vf.Undecided('c18 does not compile: ' + r[1][:3000])
     ctx.pmap(lambda x: ctx.run(x[0][0], [x[1]]), list(zip(res, ('float', 'double', 'longdouble'))))
+    # member functions that are a second spelling of a constructor (ReynoldsNumber::Speed(mu, rho, L), Stress::Traction(n), ...):
+    # tied to the constructor form, which the table above checks against the textbook formula
+    R, items, tjobs, tres = rel.build(ctx, 6, per_tu=20)
+    for j, r in zip(tjobs, tres):
+        if not r[0]:
+            raise vf.Undecided('member-twin harness does not compile: ' + r[1][:3000])
+    ctx.pmap(lambda x: ctx.run(x[0], [x[1]]), [(r[0], t) for r in tres for t in ('float', 'double', 'longdouble')])
+    h.stats['member_twin_items'] = len(items)
     present = sorted(h.sets.get('rows_present', ()))
     absent = sorted(h.sets.get('rows_absent', ()))
     h.stats['rows_present'] = len(present)
@@ -29,5 +37,6 @@ def run(ctx):
             'each guarded by a compile-time existence probe, x 3 numeric types x a magnitude grid 2^e*m over 80 binades (all pairs for 1-2 '
             'arguments, full sweeps of every argument with co-prime strides on the others for 3-4 arguments; all arguments pairwise '
             'different). Reference in __float128 with the textbook constants; accepted error = 4 ulp or the image of +-1,2,4 ulp input '
-            'moves under the exact formula (R3). distinct_nontrivial = definitions x numeric types checked') % (len(present) + len(absent))
-    return vf.finish(ctx, 'exploration', rule, h.stat('evaluations'), max(2, h.stat('definitions_checked')), True)
+            'moves under the exact formula (R3). Plus every discovered member function that has a constructor twin with the same operand types (%d today), compared with that constructor under the same kind of tolerance. '
+            'distinct_nontrivial = definitions x numeric types checked') % (len(present) + len(absent), len(items))
+    return vf.finish(ctx, 'exploration', rule, h.stat('evaluations') + h.stat('member_twin_evaluations'), max(2, h.stat('definitions_checked') + h.stat('member_twins_checked')), True)
